@@ -1254,8 +1254,13 @@ func ruleRegsReset(c *Ctx, r *Report) {
 				}
 				fresh := true
 				for _, l := range c.originSet(arg) {
-					switch l.(type) {
+					switch x := l.(type) {
 					case *ssa.MakeSlice, *ssa.Const:
+					case *ssa.Slice:
+						// make([]T, 0, constant) is lowered to a slice of a new array
+						if al, ok := x.X.(*ssa.Alloc); !ok || al.Parent() != f {
+							fresh = false
+						}
 					default:
 						fresh = false
 					}
@@ -1269,4 +1274,93 @@ func ruleRegsReset(c *Ctx, r *Report) {
 		})
 	}
 	r.analysed(rule, fmt.Sprintf("%d register arguments in continuations of exec", n))
+}
+
+// ---------------------------------------------------------------------------
+// R-RECOVER-WRITERS (added after seed C04): a recovery handler lives on a frame of its own, created for it;
+// it is never attached to a promise that exists for another purpose (e.g. the goal's clause alternatives,
+// which a cut inside the goal removes).
+
+func ruleRecoverWriters(c *Ctx, r *Report) {
+	const rule = "R-RECOVER-WRITERS"
+	n := 0
+	for _, s := range c.storesIntoStruct(enginePkgPath, "Promise") {
+		if len(s.path) == 0 || s.path[0] != "recover" {
+			continue
+		}
+		n++
+		key := fmt.Sprintf("%s/store(recover)", fname(s.fn))
+		desc := "the handler of catch/3 is installed on a dedicated frame allocated for it"
+		if !freshAlloc(s.base) {
+			r.bad(rule, key, c.at(s.store), desc, "the handler is attached to an existing promise ("+valName(s.base)+"): if that promise is the goal's own (its cut barrier), a cut inside Goal pops the handler, and an error promise returned for Goal is popped before the handler is consulted")
+			continue
+		}
+		// the dedicated frame delays the protected goal: the same allocation gets exactly one delayed alternative
+		delayed := false
+		for _, s2 := range c.storesIntoStruct(enginePkgPath, "Promise") {
+			if s2.base == s.base && len(s2.path) > 0 && s2.path[0] == "delayed" {
+				delayed = true
+			}
+		}
+		if delayed {
+			r.ok(rule, key, c.at(s.store), desc, "stored into a promise allocated by the constructor together with the delayed goal", true)
+		} else {
+			r.bad(rule, key, c.at(s.store), desc, "the frame carrying the handler has no delayed goal: the handler would not be on the stack while the goal runs")
+		}
+	}
+	if n == 0 {
+		r.bad(rule, "Promise.recover/writers", "-", "the handler of catch/3 is installed on a dedicated frame", "no store to Promise.recover found")
+	}
+	r.analysed(rule, fmt.Sprintf("%d stores to Promise.recover", n))
+}
+
+// ---------------------------------------------------------------------------
+// R-RESOLVE-FIRST (added after seed C11): in the witness / free-variable machinery of bagof/setof every
+// inspection of a term's shape is made on env.Resolve(term), at every level of the walk.
+
+var witnessFuncs = []string{"newVariableSet", "newExistentialVariablesSet", "newFreeVariablesSet", "variant", "iteratedGoalTerm"}
+
+func ruleResolveFirst(c *Ctx, r *Report) {
+	const rule = "R-RESOLVE-FIRST"
+	resolve := c.method("Env", "Resolve")
+	if resolve == nil {
+		r.undecided(rule, "anchor:Resolve", "-", "locate Env.Resolve", "not found")
+		return
+	}
+	n := 0
+	for _, name := range witnessFuncs {
+		fn := c.fn(name)
+		if fn == nil {
+			r.undecided(rule, "anchor:"+name, "-", "locate "+name, "not found")
+			continue
+		}
+		for _, f := range withAnon(fn) {
+			seenKey := map[string]int{}
+			eachInstr(f, func(in ssa.Instruction) {
+				ta, ok := in.(*ssa.TypeAssert)
+				if !ok || !isEngNamed(ta.X.Type(), "Term") {
+					return
+				}
+				n++
+				base := fmt.Sprintf("%s/%s.(%s)", fname(f), valName(ta.X), typeName(ta.AssertedType))
+				seenKey[base]++
+				key := fmt.Sprintf("%s[%d]", base, seenKey[base])
+				desc := "the shape of a term is inspected only after resolving it under the current environment"
+				good := true
+				var bad ssa.Value
+				for _, l := range c.originSet(ta.X) {
+					call, _ := callOfValue(l)
+					if call == nil || call.Call.StaticCallee() != resolve {
+						good, bad = false, l
+					}
+				}
+				if good {
+					r.ok(rule, key, c.at(ta), desc, "operand is env.Resolve(…)", true)
+				} else {
+					r.bad(rule, base, c.at(ta), desc, "the operand may be "+valName(bad)+" unresolved: a sub-term reached through a bound variable is taken for a variable, so ^-quantification / witnesses are computed wrongly")
+				}
+			})
+		}
+	}
+	r.analysed(rule, witnessFuncs...)
 }
